@@ -33,7 +33,7 @@ func init() {
 		Required:  []string{"big-operand", "ratio-operand", "overflow-boundary", "float-compare"},
 		Bound: func(tier string) string {
 			if tier == engine.Thorough {
-				return fmt.Sprintf("all pairs over %d integers + %d ratios for 24 binary operators, all unary, expt exponent -3..70, ash shift -130..130, all triples over an 11-element subgrid for n-ary + * - < = <= max min, integer x adjacent single/double/long floats for 6 comparisons", len(intGrid()), len(ratGrid()))
+				return fmt.Sprintf("all pairs over %d integers + %d ratios for 24 binary operators, all unary, expt exponent -3..70, ash shift -130..130, all triples over an 11-element subgrid for n-ary + * - < = <= max min, integer (grid + 12 precision-edge integers of the single and double formats) x adjacent single/double/long floats for 6 comparisons", len(intGrid()), len(ratGrid()))
 			}
 			return fmt.Sprintf("all pairs over %d integers + %d ratios for 24 binary operators, all unary, expt exponent 0..20, ash shift on a 17-value grid, triples over a 6-element subgrid, integer x adjacent double floats for 6 comparisons", len(intGrid()), len(ratGrid()))
 		},
@@ -174,13 +174,17 @@ func enumerate(tier string, emit func(string)) {
 		}
 	}
 	// integer vs adjacent floats
-	kinds := []string{"d"}
-	if tier == engine.Thorough {
-		kinds = []string{"d", "f", "l"}
+	kinds := []string{"d", "f", "l"}
+	// integers at the precision edge of the single and double formats (exact as a double but not as a single, ...):
+	// used for this family only, on both sides
+	var edge []string
+	for _, e := range []int64{1<<24 - 1, 1 << 24, 1<<24 + 1, 1<<25 + 1, 1<<32 + 1, 1<<53 - 1} {
+		edge = append(edge, fmt.Sprint(e), fmt.Sprint(-e))
 	}
+	nears := append(append([]string{}, all[:nint]...), edge...)
 	for _, op := range cmpOps {
-		for _, a := range all {
-			for _, near := range all[:nint] {
+		for _, a := range append(append([]string{}, all...), edge...) {
+			for _, near := range nears {
 				for _, k := range kinds {
 					for _, adj := range []string{"eq", "lo", "hi"} {
 						if tier != engine.Thorough && a != near {
